@@ -72,6 +72,7 @@ type Pipe struct {
 	clients  map[int]*clientState
 	ids      map[string]int // canonical request -> submission id
 	suffix   map[int]string
+	long     map[int]string
 	nsub     int
 	curver   uint64
 	unpubOn  bool
@@ -363,7 +364,7 @@ func New(unpubOn bool, kt concr.KeyType) (*Pipe, error) {
 	if err != nil {
 		return nil, err
 	}
-	p := &Pipe{Keys: keys, builders: map[string]*concr.Builder{}, clients: map[int]*clientState{}, ids: map[string]int{}, suffix: map[int]string{}, unpubOn: unpubOn,
+	p := &Pipe{Keys: keys, builders: map[string]*concr.Builder{}, clients: map[int]*clientState{}, ids: map[string]int{}, suffix: map[int]string{}, long: map[int]string{}, unpubOn: unpubOn,
 		queue: &opqueue.MemQueue{}, store: wire.NewOpStore(), unpub: &unpubStore{}, cas: &memCAS{m: map[string][]byte{}},
 		txnCh: make(chan []txn.SidetreeTxn), doneCh: make(chan obsSnap), contCh: make(chan struct{}, 1), dupTxn: map[int]bool{}}
 	p.cas.failWrt = &p.casWriteKO
@@ -565,6 +566,8 @@ func (p *Pipe) Exec(s Step, dids []int) error {
 			sh = concr.Shape{Ty: "C", Nuc: 4, Nrc: 1, Dl: "ok", Win: "none", P: s.D * 100, Sfx: "ok", Sig: "ok"}
 		case "U":
 			sh = concr.Shape{Ty: "U", Rk: c.uk, Sig: "ok", Nuc: c.uk + 1, Dl: "ok", P: tok, Sfx: "ok"}
+		case "B": // a create with a key that validation accepts but the transformer cannot convert: refused
+			sh = concr.Shape{Ty: "C", Nuc: 4, Nrc: 1, Dl: "ok", Win: "none", P: s.D*100 + 99, Sfx: "ok", Sig: "ok"}
 		case "X": // re-commits to the DID's first update key
 			sh = concr.Shape{Ty: "U", Rk: c.uk, Sig: "ok", Nuc: 4, Dl: "ok", P: tok, Sfx: "ok"}
 		case "R":
@@ -573,7 +576,18 @@ func (p *Pipe) Exec(s Step, dids []int) error {
 			sh = concr.Shape{Ty: "D", Rk: c.rk, Sig: "ok", Sfx: "ok"}
 		}
 		bb := *b
-		if s.K != "C" {
+		if s.K == "B" {
+			bad, perr := patch.NewAddPublicKeysPatch(`[{"id":"badkey","type":"Ed25519VerificationKey2018","purposes":["authentication"],"publicKeyJwk":{"kty":"EC","crv":"P-256","x":"PUymIqdtF_qxaAqPABSw-C-owT1KYYQbsMKFM-L9fJA","y":"nM84jDHCMOTGTh_ZdHq4dBBdo4Z5PkEOW9jA8z8IsGc"}}]`)
+			if perr != nil {
+				return perr
+			}
+			nb, nerr := concr.NewBuilderExtra(p.Keys, sh, append(VersionPatches(p.curver, s.D*100+99), bad))
+			if nerr != nil {
+				return nerr
+			}
+			bb = *nb
+		}
+		if s.K != "C" && s.K != "B" {
 			bb.Extra = VersionPatches(p.curver, tok)
 			// deterministic signature schemes (Ed25519) would make repeated requests byte-identical: a unique,
 			// always-satisfied window (no anchorFrom, far-away anchorUntil) keeps every submission distinct
@@ -593,6 +607,7 @@ func (p *Pipe) Exec(s Step, dids []int) error {
 			case "C":
 				c.created = true
 				p.suffix[s.D] = b.Suffix
+				p.long[s.D] = longForm(NS+":"+b.Suffix, req)
 			case "U":
 				c.uk++
 				c.seq++
@@ -652,15 +667,36 @@ func (p *Pipe) Exec(s Step, dids []int) error {
 		L := len(p.ledger)
 		times := make([][]View, len(dids))
 		versions := make([][]View, len(dids))
+		timesLong := make([][]View, len(dids))
+		versionsLong := make([][]View, len(dids))
 		for i, d := range dids {
-			times[i], versions[i] = []View{}, []View{}
+			times[i], versions[i], timesLong[i], versionsLong[i] = []View{}, []View{}, []View{}, []View{}
+			long := p.LongDID(d)
+			if long == "" {
+				long = p.DID(d)
+			}
 			for T := 1; T <= L; T++ {
 				vt := time.Unix(int64(T), 0).UTC().Format(time.RFC3339)
 				times[i] = append(times[i], p.view(p.resolveAt(p.DID(d), "versionTime", vt)))
 				versions[i] = append(versions[i], p.view(p.resolveAt(p.DID(d), "versionId", "ref"+strconv.Itoa(T))))
+				// the same cuts asked for with the long-form DID (compared for anchored DIDs only: an unanchored
+				// long-form DID legitimately resolves from its initial state)
+				timesLong[i] = append(timesLong[i], p.view(p.resolveAt(long, "versionTime", vt)))
+				versionsLong[i] = append(versionsLong[i], p.view(p.resolveAt(long, "versionId", "ref"+strconv.Itoa(T))))
 			}
 		}
-		p.log(map[string]interface{}{"ev": "ResolveHist", "times": times, "versions": versions})
+		// cuts that select nothing: a version time before 1970, an unknown version id whose text contains "not found"
+		odd := make([][]View, len(dids))
+		for i, d := range dids {
+			long := p.LongDID(d)
+			if long == "" {
+				long = p.DID(d)
+			}
+			for _, did := range []string{p.DID(d), long} {
+				odd[i] = append(odd[i], p.view(p.resolveAt(did, "versionTime", "1969-12-31T23:59:59Z")), p.view(p.resolveAt(did, "versionId", "ref not found")))
+			}
+		}
+		p.log(map[string]interface{}{"ev": "ResolveHist", "times": times, "versions": versions, "timesLong": timesLong, "versionsLong": versionsLong, "odd": odd})
 	default:
 		return fmt.Errorf("unknown step %q", s.A)
 	}
@@ -786,6 +822,41 @@ func (p *Pipe) CreateViews(d int) (map[string]string, error) {
 	out["long_form_after_anchoring"] = norm(rrL2, errL2, long)
 	return out, nil
 }
+
+// longForm: the long-form DID of a create request (short form + ":" + base64url of the canonical initial state).
+func longForm(short string, createReq []byte) string {
+	var m map[string]interface{}
+	if json.Unmarshal(createReq, &m) != nil {
+		return short
+	}
+	delete(m, "type")
+	initial, err := canonicalizer.MarshalCanonical(m)
+	if err != nil {
+		return short
+	}
+	return short + ":" + b64(initial)
+}
+
+// ResubmitCreate hands the (byte-identical) create request of DID d to intake once more; it reports whether intake
+// accepted it and how many operations the batch queue holds afterwards.
+func (p *Pipe) ResubmitCreate(d int) (bool, int, error) {
+	b, err := p.builder(d)
+	if err != nil {
+		return false, 0, err
+	}
+	req, err := b.Request(concr.Shape{Ty: "C", Nuc: 4, Nrc: 1, Dl: "ok", Win: "none", P: d * 100, Sfx: "ok", Sig: "ok"})
+	if err != nil {
+		return false, 0, err
+	}
+	perr := p.submit(req)
+	return perr == nil, len(p.queueIDs()), nil
+}
+
+// LongDID returns the long-form DID of d ("" if d was never created through Exec).
+func (p *Pipe) LongDID(d int) string { return p.long[d] }
+
+// Handler exposes the real document handler.
+func (p *Pipe) Handler() *dochandler.DocumentHandler { return p.handler }
 
 func b64(b []byte) string { return base64.RawURLEncoding.EncodeToString(b) }
 
